@@ -102,6 +102,15 @@ class NPArr:
     def __eq__(self, o):
         return isinstance(o, NPArr) and self.data == o.data
 
+    def __len__(self):
+        return len(self.data)
+
+    def __iter__(self):
+        return iter([NPArr(r) if isinstance(r, list) else r for r in self.data])
+
+    def __hash__(self):
+        return hash(repr(self.data))
+
     def __repr__(self):
         return f"NPArr({self.data})"
 
@@ -187,6 +196,15 @@ class ClassInfo:
             elif isinstance(st, ast.Assign) and len(st.targets) == 1 and isinstance(st.targets[0], ast.Name):
                 self.assigns[st.targets[0].id] = st.value
                 self.assign_nodes[st.targets[0].id] = st
+            elif isinstance(st, ast.Assign) and len(st.targets) == 1 and isinstance(st.targets[0], (ast.Tuple, ast.List)) \
+                    and all(isinstance(e, ast.Name) for e in st.targets[0].elts):
+                # `A, B = <expr>` at class level: each name is <expr>[i]
+                for i, e in enumerate(st.targets[0].elts):
+                    sub = ast.Subscript(value=st.value, slice=ast.Constant(value=i), ctx=ast.Load())
+                    ast.copy_location(sub, st.value)
+                    ast.fix_missing_locations(sub)
+                    self.assigns[e.id] = sub
+                    self.assign_nodes[e.id] = st
             elif isinstance(st, ast.AnnAssign) and isinstance(st.target, ast.Name):
                 self.annotations[st.target.id] = st.annotation
                 if st.value is not None:
@@ -845,16 +863,32 @@ class Folder:
             return b
         if name == "numpy.transpose":
             return args[0].T
-        if name == "numpy.identity":
+        if name in ("numpy.identity", "numpy.eye"):
             k = args[0]
-            return NPArr([[1 if i == j else 0 for j in range(k)] for i in range(k)])
+            m = kw.get("M", args[1] if len(args) > 1 and isinstance(args[1], int) else None) or k
+            return NPArr([[1 if i == j else 0 for j in range(m)] for i in range(k)])
+        if name == "numpy.ones":
+            shp = args[0] if args else kw.get("shape")
+            if isinstance(shp, int):
+                return NPArr([1] * shp)
+            return NPArr([[1] * shp[1] for _ in range(shp[0])])
+        if name in ("numpy.hstack", "numpy.column_stack"):
+            parts = [p if isinstance(p, NPArr) else NPArr(p) for p in args[0]]
+            if parts[0].ndim == 1:
+                return NPArr(sum((p.data for p in parts), []))
+            return NPArr([sum((p.data[i] for p in parts), []) for i in range(parts[0].shape[0])])
+        if name in ("numpy.vstack", "numpy.row_stack"):
+            parts = [p if isinstance(p, NPArr) else NPArr(p) for p in args[0]]
+            return NPArr(sum((p.tolist() if p.ndim == 2 else [p.tolist()] for p in parts), []))
+        if name == "bitarray.util.zeros":
+            return BitArr([0] * args[0])
         if name == "numpy.zeros":
-            shp = args[0]
+            shp = args[0] if args else kw.get("shape")
             if isinstance(shp, int):
                 return NPArr([0] * shp)
             return NPArr([[0] * shp[1] for _ in range(shp[0])])
         if name == "numpy.concatenate":
-            parts = list(args[0])
+            parts = [p if isinstance(p, NPArr) else NPArr(p) for p in args[0]]
             axis = kw.get("axis", args[1] if len(args) > 1 else 0)
             if axis == 1:
                 return NPArr([sum((p.data[i] for p in parts), []) for i in range(parts[0].shape[0])])
